@@ -603,7 +603,7 @@ J(name="c05.gridDisksUnsafe", props=["C05"], harness="c05.c", entry="h_gridDisks
               assigns="i, segment, __CPROVER_object_whole(out)",
               inv="0 <= i && (i <= length || length < 0) && segmentSize == h3v_n && k >= 0 && "
                   "((0 <= h3v_g && h3v_g < i && h3Set[h3v_g] == h3v_w) ==> h3v_werr == 0)")])
-J(name="c05.neighbor.res1", props=["C05", "C10", "C01"], harness="c05.c", entry="h_neighbor_closure", defs=["MAXRES=1"], unwind=8, timeout=1500,
+J(name="c05.neighbor.res1", props=["C05"], harness="c05.c", entry="h_neighbor_closure", defs=["MAXRES=1"], unwind=8, timeout=1500,
   bound_note="all valid cells of resolution <= 1 (842+122 cells, symbolic) x all 6 directions; loops unwound with unwinding assertions")
 J(name="c05.neighbor.res2", props=["C05", "C10", "C01"], harness="c05.c", entry="h_neighbor_closure", defs=["MAXRES=2"], unwind=8, timeout=3000, tier="thorough",
   bound_note="all valid cells of resolution <= 2 (symbolic) x all 6 directions; loops unwound with unwinding assertions")
